@@ -47,6 +47,30 @@ class _Repair:
             self.mt.create_work_order(dev, 'fix')
 
 
+class _RandomFaults:
+    '''Restored callback (and start-up event): the next failure comes after a number of time units drawn with the
+    LIBRARY's own stochastic helper (documented to use Python's random module), as examples/SingleMachineWithFaults.py.'''
+
+    def __init__(self, dev=None):
+        self.dev = dev
+        self.__name__ = 'rearm'
+
+    def __call__(self, dev=None, *a):
+        from simprocesd.utils import geometric_distribution_sample
+        dev = dev if dev is not None else self.dev
+        dev.schedule_failure(dev.env.now + geometric_distribution_sample(0.4, 2), 'random fault')
+
+
+class _ArmAll:
+    def __init__(self, devs):
+        self.devs = devs
+        self.__name__ = 'arm'
+
+    def __call__(self):
+        for d in self.devs:
+            _RandomFaults(d)()
+
+
 def build_model(kind):
     '''Builds a model in the ACTIVE system from library classes only (default PartGenerator: part ids come from the
     global counter).  Merge topologies make the random tie-breaks decide outcomes.'''
@@ -76,6 +100,15 @@ def build_model(kind):
         m2 = PartProcessor('M2', [s], 1)
         for m in (m1, m2):
             m.add_shutdown_callback(_Repair(mt))
+        Sink('K', [m1, m2], collect_parts=True)
+    elif kind == 'faults':
+        mt = Maintainer('mt', 1)
+        s = Source('S', PartGenerator('p'), 1)
+        m1 = PartProcessor('M1', [s], 1)
+        m2 = PartProcessor('M2', [s], 2)
+        for m in (m1, m2):
+            m.add_shutdown_callback(_Repair(mt))
+            m.add_restored_callback(_RandomFaults())
         Sink('K', [m1, m2], collect_parts=True)
     elif kind == 'group2':
         # a shared machine used by two paths with different upstreams: both sources block on the group input at once
@@ -108,6 +141,10 @@ def prepare(system, kind):
         system.env.schedule_event(0, -5, _Fail(m1, m2), 5)
     if kind == 'res':
         system.resource_manager.add_resources('r', 1)
+    if kind == 'faults':
+        # ONE start-up event (its tie-break weight is drawn before the program seeds the generator, so two of them
+        # would run in an order the seed does not determine)
+        system.env.schedule_event(0, -5, _ArmAll([system.find_assets(name=n)[0] for n in ('M1', 'M2')]), 5)
 
 
 class _Fail:
